@@ -60,7 +60,11 @@ func (fr *Frame) callWith(st *State, c *ssa.CallCommon, args []Val, fnv Val, pos
 		if fc := vc.prog.cs.Funcs[key]; fc != nil {
 			return fr.applyContract(st, fc, key, nil, sig, all, pos)
 		}
-		// devirtualise when the dynamic type is statically evident? not attempted
+		// no contract for the interface method: dispatch by case analysis over the repository types that implement
+		// the interface (pointer receivers); any other dynamic type falls back to the arbitrary-result treatment
+		if res, ok := fr.dispatchInvoke(st, c, recv, args, key, sig, pos); ok {
+			return res
+		}
 		return fr.havocCall(st, "interface method "+key, sig, pos, true)
 	}
 	callee := c.StaticCallee()
@@ -276,10 +280,9 @@ func (fr *Frame) applyContract(st *State, fc *FuncContract, key string, callee *
 	if fc.Extern || fc.Trusted {
 		vc.assumptions["assumed contract: "+key] = true
 	}
-	view := ""
-	if tv := fr.top().view; tv != "" && fc.hasView(tv) {
-		view = tv
-		vc.assumptions["abstract ("+tv+") view of "+key+" assumed at call sites (trusted abstraction of its verified byte-level contract)"] = true
+	view := fc.selectView(fr.top().view)
+	if view != "" {
+		vc.assumptions["abstract ("+view+") view of "+key+" assumed at call sites (trusted abstraction of its verified byte-level contract)"] = true
 	}
 	pnames, rnames := fr.contractNames(fc, callee, sig)
 	vars := map[string]Val{}
@@ -426,6 +429,18 @@ func (fr *Frame) havocTarget(st *State, m Expr, env *Env) (err error) {
 			return nil
 		}
 	case *ESel:
+		// pkg.ghostGlobal (a ghost global of another package) ?
+		if id, ok := x.X.(*EIdent); ok {
+			if _, isVar := env.vars[id.Name]; !isVar && (env.pkg == nil || env.pkg.Scope().Lookup(id.Name) == nil) {
+				if p := vc.prog.pkgByName(id.Name, env.pkg); p != nil && p.Scope().Lookup(x.Name) == nil {
+					if g := vc.prog.ghostGlobalIn(x.Name, p.Name()); g != nil {
+						t := env.resolveType(g.Type)
+						vc.writeGlobal(st, "G:ghost."+g.Pkg+"."+x.Name, t, vc.freshVal(x.Name, t))
+						return nil
+					}
+				}
+			}
+		}
 		// Type.field (whole heap) ?
 		if id, ok := x.X.(*EIdent); ok {
 			if _, isVar := env.vars[id.Name]; !isVar && env.pkg != nil {
@@ -706,7 +721,10 @@ func (fr *Frame) intrinsic(st *State, callee *ssa.Function, key string, args []V
 		if len(args) == 2 {
 			// two interface values: both nil, or same dynamic type and equal content
 			a, b := args[0], args[1]
-			t := "(and (= " + a.C[0] + " " + b.C[0] + ") (= " + a.C[1] + " " + b.C[1] + "))"
+			t := "(= " + a.C[0] + " " + b.C[0] + ")"
+			if len(a.C) == 2 && len(b.C) == 2 {
+				t = "(and (= " + a.C[0] + " " + b.C[0] + ") (= " + a.C[1] + " " + b.C[1] + "))"
+			}
 			if sf := vc.prog.specFnIn("valeq", "value"); sf != nil {
 				ve := vc.declareSpecFn(sf)
 				av, bv := a.C[len(a.C)-1], b.C[len(b.C)-1]
@@ -1110,6 +1128,23 @@ func (fr *Frame) callWrites(w *writeSet, c *ssa.CallCommon, seen map[*ssa.Functi
 		}
 	}
 	useContract := fc != nil && !fc.Inline && fc.applicable(fr.top().view)
+	if c.IsInvoke() && fc == nil && depth <= curDepthLimit {
+		// dispatched by case analysis when executed: the writes of every implementation
+		for _, im := range vc.prog.implementations(c.Value.Type(), c.Method.Name()) {
+			if seen[im.fn] {
+				continue
+			}
+			seen[im.fn] = true
+			for _, b := range im.fn.Blocks {
+				for _, ins := range b.Instrs {
+					sub := newWriteSet()
+					fr.instrWrites(sub, ins, seen, depth+1)
+					w.merge(sub)
+				}
+			}
+			delete(seen, im.fn)
+		}
+	}
 	if fr.top().lockOnly && callee != nil && callee.Blocks != nil && strings.HasPrefix(pkgPathOf(callee), "github.com/whatap/golib") {
 		useContract = false
 	}
@@ -1137,10 +1172,7 @@ func (fr *Frame) callWrites(w *writeSet, c *ssa.CallCommon, seen map[*ssa.Functi
 			}
 		}
 		pkg := vc.prog.typesPkgByName(fc.Pkg)
-		mview := ""
-		if tv := fr.top().view; tv != "" && fc.hasView(tv) {
-			mview = tv
-		}
+		mview := fc.selectView(fr.top().view)
 		for _, m := range fc.modifiesFor(mview) {
 			if !fr.staticModKeys(w, m, ptypes, pkg) {
 				w.all = true
@@ -1226,6 +1258,16 @@ func (fr *Frame) staticModKeys(w *writeSet, m Expr, ptypes map[string]types.Type
 			return true
 		}
 	case *ESel:
+		if id, ok := x.X.(*EIdent); ok {
+			if _, isVar := ptypes[id.Name]; !isVar && (pkg == nil || pkg.Scope().Lookup(id.Name) == nil) {
+				if p := vc.prog.pkgByName(id.Name, pkg); p != nil && p.Scope().Lookup(x.Name) == nil {
+					if g := vc.prog.ghostGlobalIn(x.Name, p.Name()); g != nil {
+						w.keys["G:ghost."+g.Pkg+"."+x.Name] = true
+						return true
+					}
+				}
+			}
+		}
 		if id, ok := x.X.(*EIdent); ok {
 			if _, isVar := ptypes[id.Name]; !isVar && pkg != nil {
 				if tn, ok := pkg.Scope().Lookup(id.Name).(*types.TypeName); ok {
@@ -1465,4 +1507,132 @@ func (fr *Frame) sameFieldsObligations(st *State, S types.Type, a, b string, pre
 		}
 		vc.oblige("assert", top.oblFn, fr.oblName("same:"+name), fr.curCond, goal, fr.pos(pos), "field "+name+" has the same value in both objects")
 	}
+}
+
+// ---------- interface method dispatch by case analysis ----------
+
+type implRec struct {
+	pt types.Type // the pointer type *T that implements the interface
+	fn *ssa.Function
+}
+
+// implementations lists the repository types *T whose method set implements iface, with their method `name`.
+func (p *Program) implementations(iface types.Type, name string) []implRec {
+	ifc, ok := iface.Underlying().(*types.Interface)
+	if !ok || ifc.NumMethods() == 0 {
+		return nil
+	}
+	if n, ok := iface.(*types.Named); !ok || n.Obj().Pkg() == nil || !strings.HasPrefix(n.Obj().Pkg().Path(), "github.com/whatap/golib") {
+		return nil
+	}
+	var out []implRec
+	var paths []string
+	for path := range p.spkgs {
+		if strings.HasPrefix(path, "github.com/whatap/golib") {
+			paths = append(paths, path)
+		}
+	}
+	sortStrings(paths)
+	for _, path := range paths {
+		sp := p.spkgs[path]
+		var names []string
+		for mn := range sp.Members {
+			names = append(names, mn)
+		}
+		sortStrings(names)
+		for _, mn := range names {
+			tm, ok := sp.Members[mn].(*ssa.Type)
+			if !ok {
+				continue
+			}
+			T := tm.Type()
+			if _, isI := T.Underlying().(*types.Interface); isI {
+				continue
+			}
+			pt := types.NewPointer(T)
+			if !types.Implements(pt, ifc) {
+				continue
+			}
+			sel := p.sprog.MethodSets.MethodSet(pt).Lookup(sp.Pkg, name)
+			if sel == nil {
+				continue
+			}
+			fn := p.sprog.MethodValue(sel)
+			if fn == nil || fn.Blocks == nil {
+				continue
+			}
+			out = append(out, implRec{pt, fn})
+		}
+	}
+	return out
+}
+
+func sortStrings(xs []string) {
+	for i := 1; i < len(xs); i++ {
+		for j := i; j > 0 && xs[j] < xs[j-1]; j-- {
+			xs[j], xs[j-1] = xs[j-1], xs[j]
+		}
+	}
+}
+
+func (fr *Frame) dispatchInvoke(st *State, c *ssa.CallCommon, recv Val, args []Val, key string, sig *types.Signature, pos token.Pos) ([]Val, bool) {
+	vc := fr.vc
+	impls := vc.prog.implementations(c.Value.Type(), c.Method.Name())
+	if len(impls) == 0 || len(impls) > 24 || fr.depth >= curDepthLimit {
+		return nil, false
+	}
+	vc.assumptions["interface call "+key+" dispatched by case analysis over the implementing repository types (pointer receivers)"] = true
+	base := st.Clone()
+	entryCond := fr.curCond
+	var conds []string
+	var sts []*State
+	var results [][]Val
+	var known []string
+	for _, im := range impls {
+		is := vc.define("dyn", "Bool", "(= "+recv.C[0]+" "+vc.typeID(im.pt)+")")
+		known = append(known, is)
+		s := base.Clone()
+		fr.curCond = andAll(entryCond, is)
+		fr.dead = false
+		rv := Val{T: im.pt, C: []string{recv.C[1]}}
+		res := fr.staticCall(s, im.fn, append([]Val{rv}, args...), nil, pos)
+		if fr.dead || fr.curCond == "false" {
+			fr.dead = false
+			continue
+		}
+		conds = append(conds, fr.curCond)
+		sts = append(sts, s)
+		results = append(results, res)
+	}
+	// any other dynamic type: arbitrary results, heap effects not modelled (as for an uncontracted call)
+	other := base.Clone()
+	var nk []string
+	for _, k := range known {
+		nk = append(nk, notT(k))
+	}
+	fr.curCond = andAll(append([]string{entryCond}, nk...)...)
+	fr.dead = false
+	ores := fr.havocCall(other, "interface method "+key+" on a type outside the repository", sig, pos, true)
+	conds = append(conds, fr.curCond)
+	sts = append(sts, other)
+	results = append(results, ores)
+	merged := vc.mergeStates(conds, sts)
+	merged.defers = base.defers
+	*st = *merged
+	fr.curCond = vc.define("disp_"+c.Method.Name(), "Bool", orAll(conds...))
+	fr.dead = false
+	var out []Val
+	for i, t := range sigResults(sig) {
+		cs := vc.flat(t)
+		nv := Val{T: t, C: make([]string, len(cs))}
+		for ci := range cs {
+			terms := make([]string, len(results))
+			for k := range results {
+				terms[k] = results[k][i].C[ci]
+			}
+			nv.C[ci] = vc.define("dres"+cs[ci].suf, cs[ci].sort, iteChain(conds, terms))
+		}
+		out = append(out, nv)
+	}
+	return out, true
 }
